@@ -26,7 +26,7 @@ func deepNest(n int, open, close string) string {
 
 func init() {
 	register("C19", func(c *engine.Ctx) {
-		c.Rule = "every root type of random programs (all features; half of them with --extra-imports so that the YAML methods exist too) x {valid, single-fault and mutated documents, wrong shapes (null, scalars, arrays, deep nesting, huge numbers, long strings), malformed byte strings} x a prior destination value obtained by decoding a valid document first; plus generated methods on types that are not the root struct (map-typed anyOf branches, named constrained strings, enums, a nested struct), decoded into directly with documents that fail late (an early map entry is fine, a later one is not); plus format-typed strings (time, date, date-time, ipv4, ipv6): every prefix, single-character deletion and substitution of valid texts, at a property and inside a nested required object. Each call runs under recover(); after a failed call the destination must re-marshal to exactly what it was. Distinct = distinct (wire, outcome, document class)."
+		c.Rule = "every root type of random programs (all features; half of them with --extra-imports so that the YAML methods exist too) x {valid, single-fault and mutated documents, wrong shapes (null, scalars, arrays, deep nesting, huge numbers, long strings), malformed byte strings} x a prior destination value obtained by decoding a valid document first; plus generated methods on types that are not the root struct (map-typed anyOf branches, named constrained strings, enums, a nested struct), decoded into directly with documents that fail late (an early map entry is fine, a later one is not); plus format-typed strings (time, date, date-time, ipv4, ipv6): every prefix, single-character deletion and substitution of valid texts, at a property and inside a nested required object; plus 16 validator kinds (each length / bound / multiple / items keyword alone, equal minimum and maximum, combined, enum, nested required object) on optional and on nullable fields with the field absent, null, every field null, the document null or {} — at the root, in a nested object and in array elements. Each call runs under recover(); after a failed call the destination must re-marshal to exactly what it was. Distinct = distinct (wire, outcome, document class)."
 		c.Proofs([]string{"GJS.Props.C19"}, []string{
 			"GJS.Props.C19.error_keeps_destination", "GJS.Props.C19.method_all_or_nothing", "GJS.Props.C19.result_independent_of_destination",
 			"GJS.Props.C19.numeric_nil_guard", "GJS.Props.C19.string_nil_guard", "GJS.Props.C19.array_nil_guard", "GJS.Props.C19.null_nil_guard",
@@ -118,6 +118,43 @@ func init() {
 			}
 			fs := M{"type": "object", "properties": M{"t": M{"type": "string", "format": fname}, "n": M{"type": "integer", "minimum": 1}, "o": M{"type": "object", "properties": M{"t": M{"type": "string", "format": fname}}, "required": []any{"t"}}}, "required": []any{"n"}}
 			subs = append(subs, subType{fs, "Root", `{"n":1}`, docs})
+		}
+		// every validator kind on OPTIONAL and NULLABLE (pointer) fields: absent, null, the whole document null or {} —
+		// the emitted checks must be guarded, whatever the combination of keywords
+		guardKinds := map[string]M{
+			"str-min": {"type": "string", "minLength": 2}, "str-max": {"type": "string", "maxLength": 3}, "str-min-eq-max": {"type": "string", "minLength": 2, "maxLength": 2},
+			"str-min-max": {"type": "string", "minLength": 1, "maxLength": 4}, "str-pattern": {"type": "string", "pattern": "^a"}, "str-all": {"type": "string", "minLength": 3, "maxLength": 3, "pattern": "^abc$"},
+			"int-min": {"type": "integer", "minimum": 1}, "int-min-eq-max": {"type": "integer", "minimum": 2, "maximum": 2}, "int-xmin": {"type": "integer", "exclusiveMinimum": 0},
+			"int-mult": {"type": "integer", "multipleOf": 3}, "num-all": {"type": "number", "minimum": 0.5, "maximum": 9.5, "multipleOf": 0.5},
+			"arr-min": {"type": "array", "items": M{"type": "integer"}, "minItems": 1}, "arr-min-eq-max": {"type": "array", "items": M{"type": "string"}, "minItems": 2, "maxItems": 2},
+			"arr-nested": {"type": "array", "items": M{"type": "array", "items": M{"type": "integer"}}, "minItems": 1, "maxItems": 1},
+			"enum-str":   {"type": "string", "enum": []any{"a", "b"}},
+			"obj-req":    {"type": "object", "properties": M{"k": M{"type": "string", "minLength": 1}}, "required": []any{"k"}},
+		}
+		{
+			props := M{}
+			nprops := M{}
+			for _, kn := range core.SortedKeys(guardKinds) {
+				props[kn] = sgen.DeepCopy(guardKinds[kn])
+				np := sgen.DeepCopy(guardKinds[kn]).(M)
+				if t, ok := np["type"].(string); ok && t != "object" {
+					np["type"] = []any{t, "null"}
+				}
+				nprops[kn] = np
+			}
+			nullDoc := M{}
+			for kn := range nprops {
+				nullDoc[kn] = nil
+			}
+			docs := []string{`{}`, `null`, string(core.MustJSON(nullDoc))}
+			for _, kn := range core.SortedKeys(guardKinds) {
+				docs = append(docs, string(core.MustJSON(M{kn: nil})))
+			}
+			subs = append(subs,
+				subType{M{"type": "object", "properties": props}, "Root", `{}`, docs},
+				subType{M{"type": "object", "properties": nprops}, "Root", `{}`, docs},
+				subType{M{"type": "object", "properties": M{"o": M{"type": "object", "properties": props}, "a": M{"type": "array", "items": M{"type": "object", "properties": nprops}}}}, "Root", `{}`,
+					[]string{`{}`, `{"o":{}}`, `{"o":null}`, `{"a":[{}]}`, `{"a":[null]}`, `{"a":[{},{}]}`, `{"a":null}`}})
 		}
 		for _, st := range subs {
 			for _, yamlToo := range []bool{false, true} {
